@@ -211,14 +211,23 @@ class AWorld:
         self.reqs, self.conns, self.calls = [], [], []
 
     # -- time -----------------------------------------------------------------------------
+    def _guarded(self, fn, *a):
+        from . import watchdog
+        try:
+            with watchdog.guard():
+                return fn(*a)
+        except watchdog.BusyLoop:
+            self.poisoned = True
+            raise
+
     def settle(self, pick=None):
-        self.loop.run_until_idle(0.0)
+        self._guarded(self.loop.run_until_idle, 0.0)
 
     def advance(self, dt):
-        self.loop.run_until_idle(dt)
+        self._guarded(self.loop.run_until_idle, dt)
 
     def advance_to(self, t):
-        self.loop.run_until(t)
+        self._guarded(self.loop.run_until, t)
 
     def next_deadline(self):
         return self.loop.next_timer()
